@@ -155,6 +155,26 @@ class _Capture:
         self.payloads = []
 
 
+def pick_tail(i):
+    # payload tails realising the classes the field parser distinguishes: empty, leading space, colon, ordinary,
+    # a character that str.splitlines() treats as a line break, a non-ASCII character
+    if i == 0:
+        return ""
+    if i == 1:
+        return " "
+    if i == 2:
+        return ":"
+    if i == 3:
+        return "x"
+    if i == 4:
+        return "\u2028"
+    return "\u00e9"
+
+
+def sse_grammar_sel(kinds, spaces, crlfs, psel):
+    return sse_grammar(kinds, spaces, crlfs, pick_tail(psel))
+
+
 def sse_grammar(kinds, spaces, crlfs, p1):
     text = sse_text(kinds, spaces, crlfs, p1)
     t = make_transport()
